@@ -33,6 +33,8 @@ package flows
 //@   ensures[size-or-single] f.cfg.MaxCertSize == 0 || result0.ToBlock == result0.FromBlock || estSize(seq(result0.Bridges), len(result0.Bridges), seq(result0.Claims), len(result0.Claims), result0.CertificateType) <= f.cfg.MaxCertSize
 //@   ensures[no-limit] f.cfg.MaxCertSize == 0 ==> result0 == fullCert
 //@   ensures[input-unchanged] fullCert.FromBlock == old(fullCert.FromBlock) && fullCert.ToBlock == old(fullCert.ToBlock) && fullCert.Bridges == old(fullCert.Bridges) && fullCert.Claims == old(fullCert.Claims)
+//@   ensures[scalars-kept] result0.RetryCount == old(fullCert.RetryCount) && result0.LastSentCertificate == old(fullCert.LastSentCertificate) && result0.CertificateType == old(fullCert.CertificateType) && result0.CreatedAt == old(fullCert.CreatedAt)
+//@   loop 0 invariant currentCert.RetryCount == old(fullCert.RetryCount) && currentCert.LastSentCertificate == old(fullCert.LastSentCertificate) && currentCert.CertificateType == old(fullCert.CertificateType) && currentCert.CreatedAt == old(fullCert.CreatedAt)
 //@   loop 0 invariant currentCert != nil && currentCert.FromBlock == fullCert.FromBlock && currentCert.FromBlock <= currentCert.ToBlock && currentCert.ToBlock <= fullCert.ToBlock
 //@   loop 0 invariant currentCert == fullCert || fresh(currentCert)
 //@   loop 0 invariant f.cfg.MaxCertSize == 0 ==> currentCert == fullCert
@@ -208,3 +210,48 @@ package flows
 //@   ensures[same-certificate] result1 == nil ==> result0 == certificate
 //@   ensures[signs-the-commitment-of-the-final-content] signedHash == keccak(catB(catB(emptyB(), bytesOf(hb(certificate.NewLocalExitRoot), 32)), bytesOf(hb(keccak(chainH(ppChunks, len(certificate.ImportedBridgeExits)))), 32))) && forall(k, 0, len(certificate.ImportedBridgeExits), ppChunks[k] == keccak(catB(emptyB(), leB(giVal(certificate.ImportedBridgeExits[k].GlobalIndex.MainnetFlag, certificate.ImportedBridgeExits[k].GlobalIndex.RollupIndex, certificate.ImportedBridgeExits[k].GlobalIndex.LeafIndex)))))
 //@   ensures[signature-attached] result1 == nil ==> typeIs(certificate.AggchainData, *agglayertypes.AggchainDataSignature) && seq(cast(certificate.AggchainData, *agglayertypes.AggchainDataSignature).Signature) == sigOf(signedHash)
+
+// ---- the block range of the next certificate (C02: gap-free chain; C03: exactly the events of the range).
+// Boundaries (assumed, A8): the L2 bridge syncer (l2Synced is its last processed block; eventsOK(from, to, nb, nc)
+// stands for "the returned bridges and claims are exactly the events of blocks from..to") and the local storage
+// (storedLastCert is the header of the last certificate sent).
+//@ ghost var l2Synced int
+//@ ghost var storedLastCert *types.CertificateHeader
+//@ spec fn bridgesOf(from int, to int) []bridgesync.Bridge
+//@ spec fn claimsOf(from int, to int) []bridgesync.Claim
+//@ spec fn nBridgesOf(from int, to int) int
+//@ spec fn nClaimsOf(from int, to int) int
+//@ interface github.com/agglayer/aggkit/aggsender/types.BridgeQuerier.GetLastProcessedBlock (self, ctx)
+//@   modifies nothing
+//@   ensures result1 == nil ==> result0 == l2Synced
+//@ interface github.com/agglayer/aggkit/aggsender/types.BridgeQuerier.GetBridgesAndClaims (self, ctx, fromBlock, toBlock)
+//@   modifies nothing
+//@   ensures result2 == nil ==> off(result0) == 0 && off(result1) == 0 && len(result0) == nBridgesOf(fromBlock, toBlock) && len(result1) == nClaimsOf(fromBlock, toBlock) && seq(result0) == bridgesOf(fromBlock, toBlock) && seq(result1) == claimsOf(fromBlock, toBlock)
+//@ interface github.com/agglayer/aggkit/aggsender/db.AggSenderStorage.GetLastSentCertificateHeader (self)
+//@   modifies nothing
+//@   ensures result1 == nil ==> result0 == storedLastCert
+
+//@ func (f *baseFlow) GetCertificateBuildParamsInternal
+//@   props C02 C03 C17
+//@   requires f != nil && f.l2BridgeQuerier != nil && f.storage != nil && f.log != nil
+//@   requires storedLastCert != nil ==> (storedLastCert.RetryCount < 9223372036854775807 && storedLastCert.FromBlock <= storedLastCert.ToBlock)
+//@   requires f.cfg.StartL2Block < 18446744073709551615 && l2Synced < 9223372036854775808
+//@   modifies nothing
+//@   ensures[error-means-nothing] result1 != nil ==> result0 == nil
+//@   ensures[nothing-new-is-an-error] ((storedLastCert == nil && f.cfg.StartL2Block >= l2Synced) || (storedLastCert != nil && storedLastCert.Status != agglayertypes.InError && storedLastCert.ToBlock >= l2Synced)) ==> result1 != nil
+//@   ensures[first-range-starts-after-the-configured-block] (result1 == nil && storedLastCert == nil) ==> result0.FromBlock == f.cfg.StartL2Block + 1 && result0.RetryCount == 0
+//@   ensures[next-range-is-contiguous] (result1 == nil && storedLastCert != nil && storedLastCert.Status != agglayertypes.InError) ==> result0.FromBlock == storedLastCert.ToBlock + 1 && result0.RetryCount == 0
+//@   ensures[replacement-reuses-the-first-block] (result1 == nil && storedLastCert != nil && storedLastCert.Status == agglayertypes.InError && storedLastCert.FromBlock > 0) ==> result0.FromBlock == storedLastCert.FromBlock && result0.RetryCount == storedLastCert.RetryCount + 1
+//@   ensures[range-within-the-synced-blocks] result1 == nil ==> result0 != nil && result0.FromBlock <= result0.ToBlock && result0.ToBlock <= l2Synced && result0.LastSentCertificate == storedLastCert
+//@   ensures[full-range-carries-exactly-its-events] (result1 == nil && result0.ToBlock == l2Synced && f.cfg.MaxCertSize == 0) ==> len(result0.Bridges) == nBridgesOf(result0.FromBlock, l2Synced) && seq(result0.Bridges) == bridgesOf(result0.FromBlock, l2Synced) && len(result0.Claims) == nClaimsOf(result0.FromBlock, l2Synced) && seq(result0.Claims) == claimsOf(result0.FromBlock, l2Synced)
+
+// gaps between the last settled range and the new one may only be empty of bridge events (and are refused outright
+// when the FEP configuration forbids gaps)
+//@ func (f *baseFlow) VerifyBlockRangeGaps
+//@   props C02
+//@   requires f != nil && f.l2BridgeQuerier != nil && newFromBlock <= newToBlock
+//@   requires lastSentCertificate != nil ==> lastSentCertificate.FromBlock <= lastSentCertificate.ToBlock
+//@   modifies nothing
+//@   ensures[no-previous-certificate] lastSentCertificate == nil ==> result == nil
+//@   ensures[contiguous-is-accepted] (lastSentCertificate != nil && lastSentCertificate.Status != agglayertypes.InError && newFromBlock == lastSentCertificate.ToBlock + 1) ==> result == nil
+//@   ensures[gap-with-events-refused] (result == nil && lastSentCertificate != nil && lastSentCertificate.Status != agglayertypes.InError && lastSentCertificate.ToBlock + 1 < newFromBlock) ==> nBridgesOf(lastSentCertificate.ToBlock + 1, newFromBlock - 1) == 0 && nClaimsOf(lastSentCertificate.ToBlock + 1, newFromBlock - 1) == 0 && !f.cfg.RequireNoFEPBlockGap
